@@ -16,27 +16,33 @@ inductive Item
   | openCluster (s : Nat)
   /-- `}` -/
   | close
-  /-- `<src> -> <dst> [lhead=cluster_<h> ltail=cluster_<t>];` — `src`, `dst` are atomic jobs -/
+  /-- `<src> -> <dst> [lhead=cluster_<h> ltail=cluster_<t>];` — `src`, `dst` are atomic jobs, or empty nested
+      schedulers (then named by `ltail` / `lhead`) standing for their `holder` node -/
   | edge (src dst : Nat) (lhead ltail : Option Nat)
+  /-- `<id> [shape="point",style="invis"]`: the invisible node of the empty nested scheduler `s`, named after the
+      scheduler itself, that the edges from / to its cluster are attached to -/
+  | holder (s : Nat)
   deriving DecidableEq, Repr, Inhabited
 
 /-- `_middle_index` -/
 def middleIndex (last : Nat) : Nat := (last - 1) / 2
 
-/-- `_middle_entry_job` -/
+/-- `_middle_entry_job`: a scheduler without jobs stands for itself (checked first) -/
 def middleEntry (t : T) : Nat → Nat → Except Err Nat
   | 0, _ => .error .fuel
   | fuel + 1, s =>
+    if (t.mem s).isEmpty then .ok s else
     let entries := entryJobs t s
     match entries[middleIndex entries.length]? with
     | none => .error .valueError                      -- "no entry found"
     | some cand => if t.isSched cand then middleEntry t fuel cand else .ok cand
 
 /-- `_middle_exit_job` (called without keywords at every level: forever jobs are left out,
-    unless that leaves nothing — the "second chance") -/
+    unless that leaves nothing — the "second chance"); a scheduler without jobs stands for itself (checked first) -/
 def middleExit (t : T) : Nat → Nat → Except Err Nat
   | 0, _ => .error .fuel
   | fuel + 1, s =>
+    if (t.mem s).isEmpty then .ok s else
     let exits := exitJobs t s true
     let exits := if exits.isEmpty then exitJobs t s false else exits
     match exits[middleIndex exits.length]? with
@@ -66,9 +72,17 @@ def edgesOf (t : T) (fuel : Nat) (j : Nat) : Except Err (List Item) :=
         | .ok src => .ok (acc ++ [Item.edge src j none (some r)])
       else .ok (acc ++ [Item.edge r j none none])
 
-/-- `_dot_body` without its first three lines and its last one; `F` is the fuel handed to
-    `_middle_entry_job` / `_middle_exit_job`, the other one bounds the nesting depth -/
-def dotBody (t : T) (F : Nat) : Nat → Nat → Except Err (List Item)
+/-- what `_dot_body` of the NESTED scheduler `j` emits right after its `graph [...];` line: the invisible node
+    named after `j` itself when `j` has no jobs and an edge is attached to it (`not self.jobs and self._dot_anchor`);
+    `anch` lists the schedulers whose `_dot_anchor` is set -/
+def holderOf (t : T) (anch : List Nat) (j : Nat) : List Item :=
+  if (t.mem j).isEmpty && anch.contains j then [Item.holder j] else []
+
+/-- one run of `_dot_body`, without its first three lines and its last one (and, for a nested scheduler, without the
+    `holderOf` line, which is emitted with the `openCluster` by the enclosing level), the `_dot_anchor` flags being
+    those of `anch`; `F` is the fuel handed to `_middle_entry_job` / `_middle_exit_job`, the other one bounds the
+    nesting depth -/
+def dotBodyWith (t : T) (anch : List Nat) (F : Nat) : Nat → Nat → Except Err (List Item)
   | 0, _ => .error .fuel
   | fuel + 1, s =>
     match topo t s with
@@ -76,16 +90,33 @@ def dotBody (t : T) (F : Nat) : Nat → Nat → Except Err (List Item)
     | .ok l =>
       l.foldlM (init := ([] : List Item)) fun acc j =>
         if t.isSched j then
-          match dotBody t F fuel j with
+          match dotBodyWith t anch F fuel j with
           | .error e => .error e
           | .ok sub =>
             match edgesOf t F j with
             | .error e => .error e
-            | .ok es => .ok (acc ++ Item.openCluster j :: sub ++ Item.close :: es)
+            | .ok es => .ok (acc ++ Item.openCluster j :: holderOf t anch j ++ sub ++ Item.close :: es)
         else
           match edgesOf t F j with
           | .error e => .error e
           | .ok es => .ok (acc ++ Item.node j :: es)
+
+/-- the schedulers on which `_middle_entry_job` / `_middle_exit_job` returned `self` during a run of `_dot_body`
+    (those calls set `_dot_anchor`): every result of such a call is the tail or the head of an edge, so these are
+    the empty schedulers among the edge endpoints -/
+def anchorsOf (t : T) (items : List Item) : List Nat :=
+  items.flatMap fun i =>
+    match i with
+    | .edge src dst _ _ => [src, dst].filter fun x => t.isSched x && (t.mem x).isEmpty
+    | _ => []
+
+/-- the two runs of `_dot_body` that `dot_format()` performs: the first one (all `_dot_anchor` reset before, text
+    discarded: its edges do not depend on the flags) finds out which empty schedulers have edges attached,
+    the second one gives those an invisible node -/
+def dotBody (t : T) (F fuel s : Nat) : Except Err (List Item) :=
+  match dotBodyWith t [] F fuel s with
+  | .error e => .error e
+  | .ok i0 => dotBodyWith t (anchorsOf t i0) F fuel s
 
 /-- the items of `dot_format()` called on scheduler `s` (ids are assigned first, which raises
     on a cyclic tree) -/
@@ -144,6 +175,9 @@ def styleAttrs (c : RenderCtx) (j : Nat) : List (String × String) :=
 def renderAttrs (as : List (String × String)) : String :=
   ",".intercalate (as.map fun kv => kv.1 ++ "=" ++ protect kv.2)
 
+/-- the attributes of the invisible node of an empty nested scheduler -/
+def holderAttrs : List (String × String) := [("shape", "point"), ("style", "invis")]
+
 def clusterName (c : RenderCtx) (s : Nat) : String := "cluster_" ++ c.rid s
 
 def renderItem (c : RenderCtx) : Item → String
@@ -156,6 +190,7 @@ def renderItem (c : RenderCtx) : Item → String
   | .edge a b (some hd) none => c.rid a ++ " -> " ++ c.rid b ++ " [lhead=" ++ clusterName c hd ++ "];\n"
   | .edge a b (some hd) (some tl) =>
     c.rid a ++ " -> " ++ c.rid b ++ " [lhead=" ++ clusterName c hd ++ " ltail=" ++ clusterName c tl ++ "];\n"
+  | .holder s => c.rid s ++ " [" ++ renderAttrs holderAttrs ++ "]\n"
 
 /-- the string returned by `dot_format()` -/
 def render (c : RenderCtx) (items : List Item) : String :=
